@@ -76,11 +76,15 @@ class Interp(Engine):
             env.set(n, ExcClass(n))
         for name, val in self.contract.module_overrides.get(module.relpath, {}).items():
             env.set(name, val)
-        for stmt in module.tree.body:
-            try:
-                self._module_stmt(module, env, stmt)
-            except (OutOfSubset, KeyError, PyRaise, TypeError, AttributeError):
-                continue
+        saved_hooks, self.hooks = self.hooks, {}      # contract hooks describe the function under contract, not module set-up
+        try:
+            for stmt in module.tree.body:
+                try:
+                    self._module_stmt(module, env, stmt)
+                except (OutOfSubset, KeyError, PyRaise, TypeError, AttributeError):
+                    continue
+        finally:
+            self.hooks = saved_hooks
         for name, val in self.contract.module_overrides.get(module.relpath, {}).items():
             env.set(name, val)
         return env
@@ -291,6 +295,8 @@ class Interp(Engine):
             return self.concrete_binop(op, a, b)
         if isinstance(a, (SBytes, bytes)) or isinstance(b, (SBytes, bytes)):
             return self.bytes_binop(op, a, b)
+        if isinstance(a, str) and isinstance(op, ast.Mod):
+            return SStr(self.fresh('fmt', StrSort))        # '%'-formatting of symbolic values (diagnostic texts): opaque
         if isinstance(a, (SStr, str)) and isinstance(b, (SStr, str)) and isinstance(op, ast.Add):
             cat = z3.Function('strcat', StrSort, StrSort, StrSort)
             return SStr(cat(self.as_str(a), self.as_str(b)))
@@ -306,8 +312,7 @@ class Interp(Engine):
         if isinstance(op, ast.Mult):
             return SInt(x * y)
         if isinstance(op, (ast.FloorDiv, ast.Mod)):
-            self.oblige('noexc.ZeroDivisionError', y != 0, 'noexc', self.cur_line)
-            self.assume(y != 0)
+            self.zero_division(y)
             # Python floor semantics; z3 div/mod are Euclidean: they agree when the divisor is positive
             pos = self.check_sat([y <= 0]) == z3.unsat
             if pos:
@@ -321,17 +326,33 @@ class Interp(Engine):
                 return SInt(x / y) if isinstance(op, ast.FloorDiv) else SInt(x % y)
             q, r = x / y, x % y
             if isinstance(op, ast.FloorDiv):
-                return SInt(z3.If(z3.And(y < 0, r != 0), q + 1, q))   # floor for negative divisor
+                return SInt(z3.If(z3.And(y < 0, r != 0), q - 1, q))   # Euclidean -> floor for a negative divisor
             return SInt(z3.If(z3.And(y < 0, r != 0), r + y, r))
         if isinstance(op, ast.Div):
-            self.oblige('noexc.ZeroDivisionError', y != 0, 'noexc', self.cur_line)
-            self.assume(y != 0)
+            self.zero_division(y)
             return SFloatQuot(x, y)
         if isinstance(op, (ast.LShift, ast.RShift)):
             if isinstance(b, int) and 0 <= b < 4096:
                 return SInt(x * (1 << b)) if isinstance(op, ast.LShift) else SInt(x / (1 << b))
-            raise OutOfSubset('shift by symbolic count')
+            # x << y == x * 2**y, x >> y == floor(x / 2**y); 2**y as an uninterpreted positive function of y
+            POW2 = z3.Function('POW2', z3.IntSort(), z3.IntSort())
+            if not (self.pure or getattr(self, 'no_oblige', 0)) and self.decide(y < 0):
+                raise PyRaise(ExcClass('ValueError'), ('negative shift count',))
+            self.assume(POW2(y) >= 1)
+            return SInt(x * POW2(y)) if isinstance(op, ast.LShift) else SInt(x / POW2(y))
+        if isinstance(op, (ast.BitOr, ast.BitAnd, ast.BitXor)):
+            # bitwise operators on unbounded ints: uninterpreted (total) functions -- equal arguments, equal results
+            f = z3.Function('BIT%s' % type(op).__name__[3:].upper(), z3.IntSort(), z3.IntSort(), z3.IntSort())
+            return SInt(f(x, y))
         raise OutOfSubset('binop %s on symbolic ints' % type(op).__name__)
+
+    def zero_division(self, y):
+        """division by a symbolic divisor: ZeroDivisionError when it is 0 (a path of its own, so that a handler
+        or the contract's `raises` clause decides); in pure (spec / quantified) mode division is total"""
+        if self.pure or getattr(self, 'no_oblige', 0):
+            return
+        if self.decide(y == 0):
+            raise PyRaise(ExcClass('ZeroDivisionError'), ('division by zero',))
 
     def concrete_binop(self, op, a, b):
         import operator
